@@ -100,7 +100,7 @@ PARSE_FACTS = {
 
 PROPS = {}
 
-GEN_OPS = ("GNLI ", "GNC ", "GSPLIT ", "GFP ", "GSL ", "GSCAN ", "GFINITE ", "GVALID ")
+GEN_OPS = ("GNLI ", "GNC ", "GSPLIT ", "GFP ", "GSL ", "GSCAN ", "GFINITE ", "GVALID ", "GUT ")
 
 
 def with_gen(cmp):
